@@ -1,8 +1,8 @@
 (* Properties_C04 -- integer, big-number and ratio literals denote their mathematical value.
    Statements only. *)
-From Coq Require Import ZArith NArith List Bool.
+From Coq Require Import ZArith NArith List Bool String.
 From Coq.Strings Require Import Byte.
-From Verif Require Import Lanes Common Values Scan Numbers Swar Int64.
+From Verif Require Import Lanes Common Values Scan Numbers Tokens Swar Int64 NumLiteral.
 Import ListNotations.
 Local Open Scope Z_scope.
 
@@ -34,6 +34,44 @@ Theorem C04_parse_int64_no_ub : forall c ds radix neg,
   match parse_int64 c ds radix neg with IUB _ => False | _ => True end.
 Proof. exact parse_int64_no_ub. Qed.
 
+(* ---- the literal scanner, end to end (token level) ---- *)
+(* an optional sign and a run of ASCII digits of ANY length (no superfluous leading zero), followed by the end
+   of the input or a number delimiter, reads under EVERY flag set as the int64 equal to its mathematical value
+   when that fits the signed range for its sign, as a big integer with exactly the literal's sign and digits
+   otherwise, and the cursor ends right behind the last digit *)
+Theorem C04_decimal_integer_literal : forall (c : cfg) (m : mem) (e start : N) (neg : bool) (sign ds : list byte),
+  (sign = [] /\ neg = false \/ sign = ["-"%byte] /\ neg = true \/ sign = ["+"%byte] /\ neg = false) ->
+  ds <> [] -> forallb is_dig ds = true -> (hd "0"%byte ds <> "0"%byte \/ ds = ["0"%byte]) ->
+  let q := (start + N.of_nat (List.length (sign ++ ds)))%N in
+  (q <= e)%N -> slice m start (List.length (sign ++ ds)) = sign ++ ds -> ends_at m e q ->
+  read_number c m e start = NVal (int_literal_value c neg ds) q.
+Proof. exact read_number_decimal_integer. Qed.
+(* where the value is the positional one *)
+Theorem C04_decimal_value : forall (c : cfg) ds, forallb is_dig ds = true -> decimal_value c ds = positional ds 0.
+Proof. exact decimal_value_positional. Qed.
+(* the same literal with an N or M suffix: big integer / big decimal with exactly the literal's sign and digit
+   text, whatever its magnitude *)
+Theorem C04_suffixed_integer_literal : forall (c : cfg) (m : mem) (e start : N) (neg : bool) (sign ds : list byte) (sfx : byte),
+  (sign = [] /\ neg = false \/ sign = ["-"%byte] /\ neg = true \/ sign = ["+"%byte] /\ neg = false) ->
+  ds <> [] -> forallb is_dig ds = true -> (hd "0"%byte ds <> "0"%byte \/ ds = ["0"%byte]) ->
+  is_c sfx "N" = true \/ is_c sfx "M" = true ->
+  let q := (start + N.of_nat (List.length (sign ++ ds)))%N in
+  (q < e)%N -> slice m start (List.length (sign ++ ds)) = sign ++ ds -> m q = sfx -> ends_at m e (q + 1)%N ->
+  read_number c m e start = NVal (suffix_value sfx neg ds) (q + 1)%N.
+Proof. exact read_number_suffixed_integer. Qed.
+
+(* non-vacuity of the literal theorems: "-9223372036854775808]" and "18446744073709551616" *)
+Example C04_literal_example :
+  let c := {| clj := true; exp := true; dispatch := []; ct_ident := 0; ct_string := 0; ct_char := 0;
+              ct_list := 0; ct_vector := 0; ct_map := 0; ct_hash := 0; ct_sign := 0; ct_digit := 0;
+              ct_delim := 0; ct_meta := 0; type_tag := []; single_char_ok := fun _ => true |} in
+  let t1 := list_byte_of_string "-9223372036854775808]" in
+  let t2 := list_byte_of_string "18446744073709551616" in
+  read_number c (fun k => nth (N.to_nat k) t1 "000"%byte) 21 0 = NVal (VInt (-9223372036854775808)) 20%N /\
+  read_number c (fun k => nth (N.to_nat k) t2 "000"%byte) 20 0 = NVal (VBigInt false 10 t2) 20%N /\
+  ends_at (fun k => nth (N.to_nat k) t1 "000"%byte) 21 20.
+Proof. vm_compute. split; [reflexivity|split; [reflexivity|right; split; reflexivity]]. Qed.
+
 (* non-vacuity *)
 Example C04_example :
   let c := {| clj := false; exp := true; dispatch := []; ct_ident := 0; ct_string := 0; ct_char := 0;
@@ -44,6 +82,8 @@ Example C04_example :
   parse_int64 c ds 10 false = IOverflow.
 Proof. vm_compute. repeat split; reflexivity. Qed.
 
+Print Assumptions C04_decimal_integer_literal.
+Print Assumptions C04_suffixed_integer_literal.
 Print Assumptions C04_swar_check.
 Print Assumptions C04_swar_value.
 Print Assumptions C04_parse_int64.
